@@ -16,7 +16,9 @@ Ops (one observation line each; `~` encodes a space, `-` the empty string):
   load | sum [rank] | csv | krona <rank> | lsum <rank> | cls <rank|-> <p> <q>|none 1
   fa|fs|fm a b c d                (a/b) + - * (c/d) in binary64 (ties fadd/subF/fmul to CPython)
   ident <kf> <kv> <text>          both get_ident implementations
-  x...                            implementation-only observations (kreport, bioboxes, human,
+  kreport | bioboxes | human <rank>   the writers that format numbers (percent text via fmul + '%.2f'/'%.1f',
+                                  kreport's int(f_weighted*total_bp)): modelled exactly
+  x...                            implementation-only observations (the bioboxes file writer,
                                   ANI threshold, lineage_csv, the command line): the model answers
                                   `impl-only`, the property oracle checks them
 """
@@ -212,17 +214,40 @@ def gen_case(rng, flavour):
         ncol = max([len(l) for _, l in tax] + [7])
         tax = [(i, l + [""] * (ncol - len(l))) for i, l in tax]
     rng.shuffle(tax)
+    if mode == "lin" and rng.random() < 0.04:
+        tax = []                     # a taxonomy file with a header and no row
     for ident, lin in tax:
         lines.append("t " + enc(ident) + " " + " ".join(enc(x) for x in lin))
     scn = f"scn {scaled} {N} {ab} " + " ".join(f"{enc(n)}={s}" for n, s in zip(names, specs))
     lines.append(scn)
     qr = _gather(scn)
     lines += qr
+    nqueries = 1
+    if flavour == "multi":
+        # further queries over the same database / taxonomy (a multi-query `tax metagenome` run)
+        for _ in range(rng.randint(1, 2)):
+            parts2 = [rng.randint(0, 8) for _ in specs]
+            if not any(parts2):
+                parts2[0] = 1
+            N2 = sum(parts2) + rng.choice([0, 0, rng.randint(1, 10)])
+            pos, specs2 = 1, []
+            for k in parts2:
+                specs2.append("-" if k == 0 else (f"{pos}-{pos + k - 1}" if k > 1 else f"{pos}"))
+                pos += k
+            scn2 = f"scn {rng.choice([1, 2, 10])} {N2} - " + " ".join(f"{enc(n)}={sp}" for n, sp in zip(names, specs2))
+            qr2 = _gather(scn2)
+            if len(qr2) < 2:
+                continue
+            lines += ["nextq", scn2] + qr2
+            qr = qr2
+            nqueries += 1
     nrows = len(qr) - 1
 
     # ---- observations ----
     top = nranks - 1
     rk = lambda: rng.randrange(nranks)            # noqa: E731
+    if nqueries > 1:
+        lines += [f"mkrona {rng.choice([0, 0, nranks - 2, rng.randrange(nranks)])}", f"mlsum {rng.randrange(nranks)}", "mcsv"]
     lines += ["load", "sum", "csv"]
     if rng.random() < 0.5:
         lines.append(f"sum {rk()}")
@@ -239,11 +264,13 @@ def gen_case(rng, flavour):
     if rng.random() < 0.15:
         lines.append(f"cls - {rng.choice(['none 1', '3 2', '11 10'])}")
     if mode == "std":
-        lines.append("xkreport")
+        lines.append("kreport")
         if rng.random() < 0.3:
-            lines.append("xbioboxes")
+            lines.append("bioboxes")
+        if rng.random() < 0.1:
+            lines.append("xbioboxesw")
         if rng.random() < 0.3:
-            lines.append(f"xhuman {rng.choice([0, 5, 6])}")
+            lines.append(f"human {rng.choice([0, 5, 6])}")
         if rng.random() < 0.3:
             p, q = rng.choice(thr_pool)
             lines.append(f"xlineagecsv - {p} {q}")
@@ -316,6 +343,7 @@ def parse_case(case):
     P.tax = []
     P.q = None
     P.rows = []
+    P.queries = []          # finished queries of a multi-query run: (q, rows)
     P.ok = True
     for l in case:
         w = l.split()
@@ -326,6 +354,10 @@ def parse_case(case):
             P.kf, P.kv, P.force, P.fail = (x == "1" for x in w[3:7])
         elif w[0] == "t" and len(w) >= 2:
             P.tax.append((dec(w[1]), [dec(x) for x in w[2:]]))
+        elif w[0] == "nextq":
+            if P.q is not None:
+                P.queries.append((P.q, P.rows))
+            P.q, P.rows = None, []
         elif w[0] == "q" and len(w) == 4:
             P.q = tuple(map(int, w[1:]))
         elif w[0] == "r" and len(w) == 4:
@@ -361,13 +393,13 @@ def spec_taxonomy(P):
     return tax, nr
 
 
-def spec_rows(P, order=None):
+def spec_rows(P, order=None, raw=None):
     """[(k, w, lineage or None)] in the given order"""
     tax, nr = spec_taxonomy(P)
     if tax is None:
         return None, nr
     rows = []
-    for k, w, name in P.rows:
+    for k, w, name in (P.rows if raw is None else raw):
         rows.append((k, w, tax.get(spec_ident(name, P.kf, P.kv))))
     if order is not None:
         rows = [rows[i] for i in order]
@@ -558,18 +590,85 @@ def _oracle(case, impl):
             if len(idx_l) == len(cur):
                 order = [cur[i] for i in idx_l]
             continue
-        if op not in ("load", "sum", "csv", "krona", "lsum", "cls") and not op.startswith("x"):
+        if op in ("mkrona", "mlsum", "mcsv"):
+            allq = P.queries + [(P.q, P.rows)]
+            tabs = []
+            fail = None
+            for (qq, rr) in allq:
+                rws, nr2 = spec_rows(P, None, raw=rr)
+                if rws is None:
+                    fail = "ValueError:multi"
+                    break
+                if P.fail and any(lin is None for _, _, lin in rws):
+                    fail = "ValueError:missing"
+                    break
+                tabs.append((qq, rws, nr2))
+            if fail:
+                if o != "err " + fail:
+                    bad.append((idx, "C19:load:error-expected", f"`{l[:60]}`: expected {fail}, got {o[:80]}"))
+                continue
+            if o.startswith("err ValueError:gt100") or o.startswith("err ValueError:le0"):
+                bad.append((idx, "C19:never_rejected:multi-query", f"`{l}` rejects valid gather results of {len(allq)} queries: {o}"))
+                continue
+            if op == "mkrona":
+                r = int(w[1])
+                exp = {}
+                ok_rank = True
+                for (qq, rws, nr2) in tabs:
+                    saveq = P.q
+                    P.q = qq
+                    T = spec_table(P, rws, nr2)
+                    P.q = saveq
+                    if r not in T:
+                        ok_rank = False
+                        break
+                    Nq = qq[0]
+                    tot = 0
+                    for lin, (k, _) in T[r].items():
+                        exp[lin] = exp.get(lin, 0) + Fraction(k, Nq)
+                        tot += k
+                    if Nq - tot > 0:
+                        exp["unclassified"] = exp.get("unclassified", 0) + Fraction(Nq - tot, Nq)
+                if not ok_rank:
+                    if not o.startswith("err ValueError:rank"):
+                        bad.append((idx, "C19:multi:rank-error-expected", f"`{l}`: a query has no lineage at rank {r}; got {o[:80]}"))
+                    continue
+                if not o.startswith("ok"):
+                    bad.append((idx, "C19:never_rejected:other", f"`{l}` failed on valid gather results: {o[:100]}"))
+                    continue
+                got = {dec(t.split("|")[0]): parse_float(t.split("|")[1]) for t in o.split()[1:]}
+                m = len(tabs)
+                for lin, v in exp.items():
+                    if lin not in got:
+                        if not (lin == "unclassified"):
+                            bad.append((idx, "C19:multi:lineage-missing", f"`{l}`: {lin!r} (mean fraction {float(v / m)!r}) not reported"))
+                    elif abs(got[lin] - v / m) > TOL:
+                        bad.append((idx, "C19:multi:mean-fraction", f"`{l}`: {lin!r} reported {float(got[lin])!r}, the mean over {m} queries is {float(v / m)!r}"))
+                for lin in got:
+                    if lin not in exp and not (lin == "unclassified" and got[lin] <= Fraction(1, 2 ** 40)):
+                        bad.append((idx, "C19:multi:lineage-extra", f"`{l}`: {lin!r} reported but no query has it"))
+                if got and abs(sum(got.values()) - 1) > TOL:
+                    bad.append((idx, "C19:multi:conservation", f"`{l}`: aggregated fractions sum to {float(sum(got.values()))!r}"))
+            elif not o.startswith("ok") and not o.startswith("err ValueError:rank"):
+                bad.append((idx, "C19:never_rejected:other", f"`{l}` failed on valid gather results: {o[:100]}"))
+            continue
+        if op not in ("load", "sum", "csv", "krona", "lsum", "cls", "kreport", "bioboxes", "human") and not op.startswith("x"):
             continue
         rows, nr = spec_rows(P, order)
         must_fail = None
         if rows is None:
             must_fail = "ValueError:multi"
+        elif not spec_taxonomy(P)[0]:
+            must_fail = "ValueError:empty"          # the taxonomy is loaded (and refused) before the gather results
         elif P.fail and any(lin is None for _, _, lin in rows):
             must_fail = "ValueError:missing"
-        elif not spec_taxonomy(P)[0]:
-            must_fail = "ValueError:empty"
         if must_fail:
-            if o != "err " + must_fail:
+            if must_fail == "ValueError:empty" and P.mode == "lin" and not P.tax and o == "err UnboundLocalError":
+                bad.append((idx, "C19:load:empty-lin-taxonomy-crash",
+                            "a LIN taxonomy CSV with a header and no rows makes LineageDB.load die with UnboundLocalError "
+                            "('ranks' is never assigned) instead of the clean 'No taxonomic assignments loaded' error "
+                            "the standard-rank loader gives"))
+            elif o != "err " + must_fail:
                 bad.append((idx, "C19:load:error-expected", f"`{l[:60]}`: expected {must_fail}, got {o[:80]}"))
             continue
         if o.startswith("err ValueError:gt100") or o.startswith("err ValueError:le0"):
@@ -679,6 +778,11 @@ def _oracle(case, impl):
         if rk_arg.isdigit() and int(rk_arg) not in Tx:
             continue            # a rank without any lineage was asked for
         if not o.startswith("ok"):
+            if op == "xbioboxesw" and o.startswith("err TypeError"):
+                bad.append((idx, "C19:never_rejected:bioboxes-writer-none-taxid",
+                            "writing the bioboxes format for a taxonomy without a `taxpath` column dies with TypeError "
+                            "(write_bioboxes joins a row whose taxid / taxpath are None)"))
+                continue
             if op == "xcli" and o.startswith("err ArgumentTypeError") and P.mode == "ictv":
                 bad.append((idx, "C19:never_rejected:cli-ictv-rank-refused",
                             f"`{l[:60]}`: with --ictv the command line refuses (uncaught ArgumentTypeError) every ICTV rank that is not also an NCBI rank name"))
@@ -686,7 +790,7 @@ def _oracle(case, impl):
                 bad.append((idx, "C19:never_rejected:other", f"`{l[:60]}` failed on a valid gather result: {o[:100]}"))
             continue
         ref = api.get("sum")
-        if op == "xkreport" and ref is not None and order is None:
+        if op == "kreport" and ref is not None and order is None:
             T = spec_table(P, rows, nr)
             seen_un = False
             for t in o.split()[1:]:
